@@ -149,6 +149,28 @@ def dsl_family(tier):
                     "pub fn f(s: &[u8]) { konst::iter::for_each!{x in s, rev() => { let _ = x; }} }\n", [dict(msg="cannot call two iterator-reversing methods")]))
     out.append(Prog("double-reversal", "collect_const", "pub const A: [u8; 2] = konst::iter::collect_const!(u8 => &[1u8, 2], rev(), rev(), copied());\n",
                     "pub const A: [u8; 2] = konst::iter::collect_const!(u8 => &[1u8, 2], rev(), copied());\n", [dict(msg="cannot call two iterator-reversing methods")]))
+    # E'. the second reverser separated from the first by another adapter: the direction state is threaded through every adapter's
+    #     expansion arm (some arms rebuild it), and each must still carry "already reversed" to the guard.  Source: a slice of slices,
+    #     so that flatten/flat_map type-check.
+    def ev3(chain):
+        return "pub fn f(s: &[&[u8]]) { let _ = konst::iter::eval!(s, %s); }\n" % chain
+    MIDS = [("map", "map(|x| x)"), ("filter", "filter(|_| true)"), ("filter_map", "filter_map(|x| Some(x))"), ("copied", "copied()"),
+            ("enumerate", "enumerate()"), ("take", "take(3)"), ("skip", "skip(1)"), ("take_while", "take_while(|_| true)"),
+            ("skip_while", "skip_while(|_| false)"), ("zip", "zip(0usize..10)"), ("flatten", "flatten()"), ("flat_map", "flat_map(|x| *x)")]
+    for mname, mid in MIDS:
+        for name, (call, kind) in REV.items():
+            if name != "rev" and tier == "quick" and mname not in ("enumerate", "take", "zip", "flatten"):
+                continue
+            if name == "rev":
+                rej, acc = ev3("rev(), %s, rev(), count()" % mid), ev3("rev(), %s, count()" % mid)
+            else:
+                c = {"rfind": "rfind(|_| true)", "rfold": "rfold(0usize, |a, _| a + 1)", "rposition": "rposition(|_| true)"}[name]
+                rej, acc = ev3("rev(), %s, %s" % (mid, c)), ev3("rev(), %s, count()" % mid)
+            out.append(Prog("double-reversal", "rev,%s,%s" % (mname, name), rej, acc, [dict(msg="cannot call two iterator-reversing methods")]))
+        out.append(Prog("double-reversal", "for_each/rev,%s,rev" % mname,
+                        "pub fn f(s: &[&[u8]]) { konst::iter::for_each!{x in s, rev(), %s, rev() => { let _ = x; }} }\n" % mid,
+                        "pub fn f(s: &[&[u8]]) { konst::iter::for_each!{x in s, rev(), %s => { let _ = x; }} }\n" % mid,
+                        [dict(msg="cannot call two iterator-reversing methods")]))
     # F. unknown methods
     for m in ("step_by(2)", "sum()", "last()", "peekable()"):
         out.append(Prog("unknown-method", "eval/" + m.split("(")[0], ev(m + (", count()" if m.startswith(("step_by", "peekable")) else "")), ev("count()"),
